@@ -146,11 +146,9 @@ def mkObj (cfg : Cfg) (ms : List (Bytes × JV)) : JV :=
 def numValue (env : Env) (n : NumSt) : Except Code JV :=
   let p := n.parts
   if env.cfg.ap then
-    -- `parse_any_number` (arbitrary_precision): the text is kept, except that a literal that
-    -- `str::parse::<u64/i64>` accepts is re-printed from the integer (`-0` ↦ `0`)
-    let txt := match intClass p with
-      | some _ => p.raw
-      | none => if p.frac.isNone && p.exp.isNone && p.neg && natOfDigits p.int == 0 then [0x30] else p.raw
+    -- `parse_any_number` (arbitrary_precision): the literal text is kept as written (an integer
+    -- literal is re-printed from the u64/i64 it parses to, which is the same text; `-0` stays `-0`)
+    let txt := p.raw
     .ok (.num (.lit txt))
   else
     match (if env.cfg.fr then convertRoundtrip p else convertDefault p) with
@@ -203,7 +201,7 @@ def endNumber (env : Env) (s : St) (n : NumSt) : Except (Code × Adj) St :=
   if env.tgt = .value then
     match numValue env n with
     | .ok v => .ok (complete s.stack v)
-    | .error c => .error (c, .excl)
+    | .error c => .error (c, .incl)       -- `peek_error`: the terminator is peeked (or end of input)
   else .ok (complete s.stack .null)
 
 def hexDigitVal (b : UInt8) : Option Nat :=
@@ -283,9 +281,8 @@ def stepStr (env : Env) (s : St) (st : StrSt) (b : UInt8) : Step :=
     if b == 0x22 then endStr env s st
     else if b == 0x5c then stay { st with esc := .bs, escaped := true }
     else if b < 0x20 then
-      -- `parse_str_bytes` advances past the byte before reporting; `SliceRead::ignore_str` does not
-      .err .ControlCharacterWhileParsingString
-        (if env.tgt = .ignored && env.src != .reader then .excl else .incl)
+      -- `parse_str_bytes` and `ignore_str` (slice and reader) advance past the byte before reporting
+      .err .ControlCharacterWhileParsingString .incl
     else stay { st with out := b :: st.out }
   | .bs =>
     if b == 0x75 then stay { st with esc := .hex [] none }
